@@ -150,7 +150,11 @@ def k1x_xls_sheet(ctx):
     if ctx.perturb == "expect_extra_row":
         r += 1
     ctx.require(len(tbl) == r, "row-count-differs", **shape)
-    ctx.require(all(len(row) == c for row in tbl), "columns-collapsed", **shape)
+    if any(len(row) != c for row in tbl):
+        # two header cells with the same text (both empty included) share one dictionary key
+        if len(data[0]) < c and _known(ctx, "C13-xlssheet-dict-rows-collapse-equal-headers"):
+            return
+        ctx.fail("columns-collapsed", distinct_keys=len(data[0]), **shape)
     ctx.require(conj([tbl[0][j] == hdr[j] for j in range(c)]), "header-cell-not-in-place")
     ctx.require(conj([tbl[i + 1][j] == vals[i][j] for i in range(n) for j in range(c)]),
                 "cell-not-in-place")
@@ -339,8 +343,18 @@ def k3_xls_read(ctx):
     shape = dict(rows=r, cols=ncols, got_rows=len(tbl), got_cols=[len(x) for x in tbl])
     if ctx.perturb == "expect_transposed":
         r, ncols = ncols, r
+    if ndata == 0 and len(tbl) == 0 and ctx.perturb is None:
+        # a sheet that consists of one row only
+        if _known(ctx, "C13-xls-single-row-sheet-comes-back-empty"):
+            return
+        ctx.fail("row-count-differs", single_row_sheet=True, **shape)
     ctx.require(len(tbl) == r, "row-count-differs", **shape)
-    ctx.require(all(len(row) == ncols for row in tbl), "columns-collapsed", **shape)
+    if any(len(row) != ncols for row in tbl):
+        distinct = len(sheet.data[0]) if sheet.data else None
+        if distinct is not None and distinct < ncols and ctx.perturb is None and \
+                _known(ctx, "C13-xls-equal-header-texts-collapse-columns"):
+            return
+        ctx.fail("columns-collapsed", distinct_keys=distinct, **shape)
     ctx.require(conj([dim.rows == r, dim.columns == ncols]), "get_dim-differs", **shape)
     for j, hs in enumerate(hdr_spec):
         got = tbl[0][j]
@@ -395,6 +409,8 @@ def k3_xls_read(ctx):
                                 conj([got is False, ~truth]), "boolean-value-differs", **where)
             elif ct == XL_ERROR:
                 # an error cell has a value (the error code / its text); it is not an empty cell
+                if got is None and _known(ctx, "C13-xls-error-cell-becomes-none"):
+                    continue
                 ctx.require(got is not None, "error-cell-value-lost", **where)
             else:   # XL_BLANK: formatted but empty
                 ctx.require((got is cell.value) if not ctx.concrete else (got is None or got == ""),
@@ -404,8 +420,8 @@ def k3_xls_read(ctx):
 def _k3_parts(tier):
     if tier == "quick":
         return [{"C": 2, "N": 2, "L": 1}, {"C": 2, "N": 1, "L": 1, "typed_header": True}]
-    return [{"C": 3, "N": 2, "L": 2, "num_hi": 2}, {"C": 2, "N": 2, "L": 1, "all_probes": True},
-            {"C": 2, "N": 1, "L": 1, "typed_header": True}]
+    return [{"C": 3, "N": 2, "L": 1, "num_hi": 2}, {"C": 2, "N": 1, "L": 2, "num_hi": 2},
+            {"C": 2, "N": 1, "L": 1, "all_probes": True}, {"C": 2, "N": 1, "L": 1, "typed_header": True}]
 
 
 # ---------------------------------------------------------------------------------------
@@ -445,7 +461,8 @@ def _iso_equal(got, v):
         if isinstance(v, datetime.datetime):
             return datetime.datetime.fromisoformat(got) == v
         if isinstance(v, datetime.date):
-            return datetime.date.fromisoformat(got) == v
+            d = datetime.datetime.fromisoformat(got)       # a date, or that date at midnight
+            return d.date() == v and d.time() == datetime.time(0)
         if isinstance(v, datetime.time):
             return datetime.time.fromisoformat(got) == v
     except Exception:
@@ -469,7 +486,7 @@ def _typed_header_text(got, v):
         return True
     if not isinstance(got, str):
         return False
-    if got == str(v) or _iso_equal(got.replace(" ", "T", 1) if isinstance(v, datetime.datetime) else got, v):
+    if got == str(v) or _iso_equal(got, v):
         return True
     try:
         return isinstance(v, (int, float)) and not isinstance(v, bool) and float(got) == float(v)
@@ -534,11 +551,31 @@ def k2_xlsx_sheet(ctx):
             kinds.append(krow)
     wb = _WB({"S1": _WS(grid)})
     ctx.hash_universe = set()
-    with ctx.shadow(x, str=_StrShadow, _format_sheet_as_text=lambda rows: ""):
+    writable = ctx.concrete and all(not isinstance(v, str) or all(ch in "\t\n" or " " <= ch for ch in v)
+                                    for row in grid for v in row)
+    if writable:
+        # replay through the public entry point: a real workbook written by openpyxl
+        import openpyxl
+        real = openpyxl.Workbook()
+        ws = real.active
+        ws.title = "S1"
+        for i, row in enumerate(grid):
+            for j, v in enumerate(row):
+                if v is not None:
+                    ws.cell(row=i + 1, column=j + 1, value=v)
+        buf = io.BytesIO()
+        real.save(buf)
+        buf.seek(0)
         try:
-            sheets = x._read_content_from_workbook(wb, ["S1"])
+            sheets = list(next(x.read_xlsx(buf, "x.xlsx")).iterate_tables())
         except Exception as e:
             ctx.fail("read-raised", exc=type(e).__name__, msg=str(e)[:100])
+    else:
+        with ctx.shadow(x, str=_StrShadow, _format_sheet_as_text=lambda rows: ""):
+            try:
+                sheets = x._read_content_from_workbook(wb, ["S1"])
+            except Exception as e:
+                ctx.fail("read-raised", exc=type(e).__name__, msg=str(e)[:100])
     ctx.require(len(sheets) == 1, "sheet-count-differs")
     tbl = sheets[0].get_table()
     dim = sheets[0].get_dim()
@@ -719,6 +756,7 @@ ODS_FINDINGS = {
     "covered-cells-skipped": "C13-ods-covered-cells-skipped",
     "wrapped-rows-skipped": "C13-ods-rows-in-row-containers-skipped",
     "big-empty-repeat-collapsed": "C13-ods-large-empty-repeat-collapsed",
+    "annotation-text-in-cell-value": "C13-ods-annotation-text-in-cell-value",
 }
 
 
@@ -813,10 +851,13 @@ def k4_ods_sheet(ctx):
         explained = None
         import itertools
         for flags in itertools.product((False, True), repeat=3):
-            if any(flags) and same(tbl, _ods_reference(rows, *flags)):
+            if ctx.perturb is None and any(flags) and same(tbl, _ods_reference(rows, *flags)):
                 explained = [n for n, f in zip(("big-empty-repeat-collapsed", "covered-cells-skipped",
                                                 "wrapped-rows-skipped"), flags) if f]
                 break
+        if mode == "typed" and typed[0].endswith("+annotation") and same(tbl, [[("a comment\n" + v) if k == "typed" else v
+                                                                             for k, v, _ in rows[0]["cells"]]]):
+            explained = ["annotation-text-in-cell-value"]
         if explained and all(_known(ctx, ODS_FINDINGS[e]) for e in explained):
             return
         label = "row-count-differs" if len(tbl) != R else ("column-count-differs" if any(len(t) != C for t in tbl)
@@ -842,6 +883,704 @@ def _k4_parts(tier):
             parts.append({"mode": "grid", "widths": list(widths), "rep_cell": 0, "rep_row": 0})
     return parts
 
+
+# ---------------------------------------------------------------------------------------
+# K5  table walkers of the word-processing / presentation / HTML / EPUB / RTF extractors
+# ---------------------------------------------------------------------------------------
+# A document model (tables of cells of paragraphs, optionally a table inside a cell, optionally a
+# second table after a separator) is generated from choices, rendered to each format, run through
+# the format's own walker (symbolic runs) or through the public read_* entry point on a generated
+# file / package (replay), and compared with the model.
+
+class Cell:
+    def __init__(self, paras, nested=None, feature="plain", wrap=None):
+        self.paras, self.nested, self.feature, self.wrap = paras, nested, feature, wrap
+
+
+class Tbl:
+    def __init__(self, rows, name):
+        self.rows, self.name = rows, name
+
+    def cells(self):
+        return [c for r in self.rows for c in r]
+
+
+WNS = "{http://schemas.openxmlformats.org/wordprocessingml/2006/main}"
+PNS = "{http://schemas.openxmlformats.org/presentationml/2006/main}"
+ANS = "{http://schemas.openxmlformats.org/drawingml/2006/main}"
+RNS = "http://schemas.openxmlformats.org/officeDocument/2006/relationships"
+DML_TABLE = "http://schemas.openxmlformats.org/drawingml/2006/table"
+
+CELL_FEATURES = ["plain", "empty", "two-paras", "padded", "nested"]
+K5_FORMATS = {
+    # cell features, table features, separators between two tables
+    "docx": dict(cell=CELL_FEATURES, table=["sdt-table", "sdt-row", "sdt-cell"], seps=["para", "none"]),
+    "pptx": dict(cell=["plain", "empty", "two-paras", "padded", "line-break", "merged"], table=[], seps=["frame"]),
+    "odt": dict(cell=CELL_FEATURES, table=["header-rows", "section"], seps=["para", "none"]),
+    "odp": dict(cell=["plain", "empty", "two-paras", "padded"], table=["header-rows"], seps=["frame"]),
+    "html": dict(cell=CELL_FEATURES + ["wrapper", "line-break"], table=["sections", "th", "omit-end-tags"],
+                 seps=["para", "none"]),
+    "epub": dict(cell=CELL_FEATURES + ["wrapper", "line-break"], table=["sections", "th"], seps=["para", "none"]),
+    "rtf": dict(cell=CELL_FEATURES, table=["double-trowd"], seps=["empty-par", "short-par", "long-par"]),
+}
+# names the symbolic wrapper element inside a cell must not take: table structure, removed elements
+# (C17's subject), void elements (no content), document structure
+HTML_NOT_A_WRAPPER = ["table", "tr", "td", "th", "thead", "tbody", "tfoot", "caption", "colgroup", "col",
+                      "title", "head", "body", "html", "script", "style", "noscript", "iframe", "object",
+                      "embed", "applet", "br", "hr", "img", "input", "meta", "link", "area", "base", "param",
+                      "source", "track", "wbr", "frame", "keygen"]
+WRAPPER_LENGTHS = (1, 2, 5)
+
+
+def _gen_doc(ctx, fmt):
+    F = K5_FORMATS[fmt]
+    feats = F["cell"] + F["table"]
+    only = ctx.params.get("features")
+    if only:
+        feats = [f for f in feats if f in only]
+    feature = feats[ctx.choice("feature", len(feats))]
+    R, C = ctx.params.get("R", 2), ctx.params.get("C", 2)
+    r = 1 + ctx.choice("rows", R)
+    c = 1 + ctx.choice("cols", C)
+    ragged = r > 1 and c > 1 and ctx.flag("last_row_one_cell_short")
+    rows = [[Cell([f"A{i}x{j}"]) for j in range(c - 1 if (ragged and i == r - 1) else c)] for i in range(r)]
+    t0 = Tbl(rows, "T0")
+    tables = [t0]
+    probe = None
+    if feature in F["cell"] and feature != "plain":
+        flat = t0.cells()
+        probe = flat[ctx.choice("probe_cell", len(flat))]
+        probe.feature = feature
+        base = probe.paras[0]
+        if feature == "empty":
+            probe.paras = []
+        elif feature == "two-paras":
+            probe.paras = [base, base + "second"]
+        elif feature == "padded":
+            probe.paras = ["  " + base + " "]
+        elif feature == "line-break":
+            probe.paras = [(base, "BR", base + "after")]
+        elif feature == "merged":
+            probe.paras = []
+        elif feature == "nested":
+            nr = 1 + ctx.choice("nested_rows", 2)
+            probe.nested = Tbl([[Cell([f"N{i}x{j}"]) for j in range(2)] for i in range(nr)], "N")
+            tables.append(probe.nested)
+        elif feature == "wrapper":
+            lengths = ctx.params.get("wrapper_lengths") or WRAPPER_LENGTHS
+            n = lengths[ctx.choice("wrapper_len", len(lengths))]
+            w = ctx.fresh_chars("wrapper", n, 48, 122)
+            for i in range(n):
+                if ctx.concrete:
+                    ch = w[i]
+                    ctx.assume(("a" <= ch <= "z") or (i > 0 and "0" <= ch <= "9"))
+                else:
+                    ch = w.c[i].z
+                    ctx.solver.add(z3.Or(ch >= 97, z3.And(ch <= 57, i > 0)) if i else ch >= 97)
+            for bad in HTML_NOT_A_WRAPPER:
+                if len(bad) == n:
+                    if ctx.concrete:
+                        ctx.assume(w != bad)
+                    else:
+                        ctx.solver.add(z3.Not(_zc(w == bad)))
+            probe.wrap = w
+            probe.paras = [(base + "p", "WRAP", base + "q", base + "r")]
+    second = ctx.choice("second_table", 3)
+    sep = None
+    if second:
+        t1 = Tbl([[Cell([f"B{i}x0"])] for i in range(second)], "T1")
+        tables.append(t1)
+        sep = F["seps"][ctx.choice("separator", len(F["seps"]))]
+    # body items in source order
+    body = [("p", "Intro"), ("t", t0)]
+    if second:
+        if sep in ("para", "short-par"):
+            body.append(("p", "Between"))
+        elif sep == "empty-par":
+            body.append(("p", ""))
+        elif sep == "long-par":
+            body.append(("p", "A paragraph of more than twenty characters between the tables " * 3))
+        body.append(("t", tables[-1]))
+    body.append(("p", "Outro"))
+    return dict(fmt=fmt, feature=feature, body=body, tables=tables, top=[t for k, t in body if k == "t"],
+                probe=probe, sep=sep, second=second, ragged=ragged)
+
+
+def _para_text(p):
+    """plain text of a model paragraph (str or a tuple with BR / WRAP markers)"""
+    if isinstance(p, str):
+        return p
+    return " ".join(x for x in p if x not in ("BR", "WRAP"))
+
+
+def _squash(s):
+    return "".join(str(s).split())
+
+
+def _words(s):
+    return " ".join(str(s).replace("\x0b", " ").split())
+
+
+def _cell_expected(cell):
+    """accepted texts of a cell, white space normalised: its own paragraphs, or those followed by
+    the texts of the table inside it"""
+    own = _words(" ".join(_para_text(p) for p in cell.paras))
+    out = [own]
+    if cell.nested is not None:
+        inner = " ".join(_words(" ".join(_para_text(p) for p in c.paras)) for c in cell.nested.cells())
+        out.append(_words(own + " " + inner))
+    return out
+
+
+def _k5_classes(doc):
+    """recorded defect classes this document falls into"""
+    fmt, feature, sep = doc["fmt"], doc["feature"], doc["sep"]
+    out = []
+    if fmt == "docx" and feature in ("sdt-table", "sdt-row", "sdt-cell"):
+        out.append("C13-docx-content-control-table-parts-lost")
+    if fmt == "odt" and feature == "nested":
+        out.append("C13-odt-nested-table-rows-merged-into-outer")
+    if fmt == "html" and feature == "nested":
+        out.append("C13-html-nested-table-merged-into-outer")
+    if fmt == "html" and feature in ("two-paras", "line-break"):
+        out.append("C13-html-cell-blocks-glued")
+    if fmt == "html" and feature == "omit-end-tags":
+        out.append("C13-html-omitted-end-tags-merge-cells")
+    if fmt == "epub" and feature == "nested":
+        out.append("C13-epub-nested-table-drops-outer")
+    if fmt == "rtf" and feature == "nested":
+        out.append("C13-rtf-nested-table-lost")
+    if fmt == "rtf" and sep in ("empty-par", "short-par"):
+        out.append("C13-rtf-adjacent-tables-merged")
+    return out
+
+
+def _judge_tables(ctx, doc, got, order_alternatives=None):
+    """got: list of tables (list of rows of cell texts) in the order iterate_tables() yields them"""
+    exp = doc["tables"]
+    info = dict(fmt=doc["fmt"], feature=doc["feature"], sep=doc["sep"], second=doc["second"],
+                expected_tables=[[len(r) for r in t.rows] for t in exp],
+                got_tables=[[len(r) for r in t] for t in got])
+    classes = _k5_classes(doc)
+    info["classes"] = classes
+    suppressed = ctx.perturb is None and any(_known(ctx, c) for c in classes)
+    if len(got) != len(exp):
+        if suppressed:
+            return
+        ctx.fail("table-count-differs", **info)
+    orders = [list(range(len(exp)))] + (order_alternatives or [])
+    last = None
+    for order in orders:
+        last = _compare(ctx, [exp[k] for k in order], got)
+        if last is None:
+            ctx.require(True, "tables-as-in-source")
+            return
+    if suppressed:
+        return
+    label, extra = last
+    ctx.fail(label, **dict(info, **extra))
+
+
+def _compare(ctx, exp, got):
+    for k, (t, g) in enumerate(zip(exp, got)):
+        if len(g) != len(t.rows):
+            return "row-count-differs", dict(table=t.name, got=repr(g)[:200])
+        width = max(len(er) for er in t.rows)
+        for i, (er, gr) in enumerate(zip(t.rows, g)):
+            # a short row may come back as it is or filled up to the table's width with empty cells
+            padded = len(gr) == width and all(x is None or str(x).strip() == "" for x in gr[len(er):])
+            if len(gr) != len(er) and not padded:
+                return "column-count-differs", dict(table=t.name, row=i, got=repr(g)[:200])
+            for j, (cell, gc) in enumerate(zip(er, gr)):
+                gc = "" if gc is None else gc
+                if cell.feature == "wrapper":
+                    ok = _squash(gc) in [_squash(x) for x in _cell_expected(cell)]
+                else:
+                    ok = _words(gc) in _cell_expected(cell)
+                if not ok:
+                    return "cell-text-differs", dict(table=t.name, row=i, col=j, got=repr(gc)[:80],
+                                                     expected=_cell_expected(cell)[0][:80], cell_feature=cell.feature)
+    return None
+
+
+def _tables_of(content):
+    out = []
+    for t in content.iterate_tables():
+        data = t.get_table()
+        dim = t.get_dim()
+        assert dim.rows == len(data) and dim.columns == max((len(r) for r in data), default=0), "get_dim"
+        out.append(data)
+    return out
+
+
+def _zip_members(members):
+    import zipfile
+    b = io.BytesIO()
+    with zipfile.ZipFile(b, "w", zipfile.ZIP_DEFLATED) as z:
+        for name, data in members:
+            z.writestr(name, data)
+    b.seek(0)
+    return b
+
+
+def _xml_bytes(ET, root, nsmap):
+    for pfx, uri in nsmap.items():
+        ET.register_namespace(pfx, uri)
+    return ET.tostring(root, encoding="utf-8", xml_declaration=True)
+
+
+# ---- docx -------------------------------------------------------------------------------
+
+def _docx_p(ET, text):
+    p = ET.Element(WNS + "p")
+    if text != "":
+        r = ET.SubElement(p, WNS + "r")
+        t = ET.SubElement(r, WNS + "t")
+        t.text = text
+        t.set("{http://www.w3.org/XML/1998/namespace}space", "preserve")
+    return p
+
+
+def _docx_sdt(ET, child):
+    sdt = ET.Element(WNS + "sdt")
+    ET.SubElement(sdt, WNS + "sdtPr")
+    ET.SubElement(sdt, WNS + "sdtContent").append(child)
+    return sdt
+
+
+def _docx_tbl(ET, t, doc):
+    feature = doc["feature"]
+    tbl = ET.Element(WNS + "tbl")
+    ET.SubElement(tbl, WNS + "tblPr")
+    ET.SubElement(tbl, WNS + "tblGrid")
+    for i, row in enumerate(t.rows):
+        tr = ET.Element(WNS + "tr")
+        ET.SubElement(tr, WNS + "trPr")
+        for j, cell in enumerate(row):
+            tc = ET.Element(WNS + "tc")
+            ET.SubElement(tc, WNS + "tcPr")
+            for p in cell.paras:
+                tc.append(_docx_p(ET, p))
+            if cell.nested is not None:
+                tc.append(_docx_tbl(ET, cell.nested, doc))
+            if not cell.paras or cell.nested is not None:
+                tc.append(_docx_p(ET, ""))         # a cell always ends with a paragraph
+            tr.append(_docx_sdt(ET, tc) if (feature == "sdt-cell" and t.name == "T0" and i == 0 and j == 0) else tc)
+        tbl.append(_docx_sdt(ET, tr) if (feature == "sdt-row" and t.name == "T0" and i == len(t.rows) - 1) else tr)
+    return tbl
+
+
+def _run_docx(ctx, doc):
+    import sharepoint2text.parsing.extractors.ms_modern.docx_extractor as m
+    ET = _ET()
+    root = ET.Element(WNS + "document")
+    body = ET.SubElement(root, WNS + "body")
+    for kind, v in doc["body"]:
+        if kind == "p":
+            body.append(_docx_p(ET, v))
+        else:
+            el = _docx_tbl(ET, v, doc)
+            body.append(_docx_sdt(ET, el) if (doc["feature"] == "sdt-table" and v.name == "T0") else el)
+    ET.SubElement(body, WNS + "sectPr")
+    if not ctx.concrete:
+        tables, _ = m._extract_tables_from_context(type("Ctx", (), {"document_body": body})())
+        return tables
+    pkg = _zip_members([
+        ("[Content_Types].xml", '<?xml version="1.0"?><Types xmlns="http://schemas.openxmlformats.org/package/2006/'
+         'content-types"><Default Extension="rels" ContentType="application/vnd.openxmlformats-package.relationships+xml"/>'
+         '<Default Extension="xml" ContentType="application/xml"/><Override PartName="/word/document.xml" ContentType='
+         '"application/vnd.openxmlformats-officedocument.wordprocessingml.document.main+xml"/></Types>'),
+        ("_rels/.rels", '<?xml version="1.0"?><Relationships xmlns="http://schemas.openxmlformats.org/package/2006/'
+         'relationships"><Relationship Id="rId1" Type="%s/officeDocument" Target="word/document.xml"/></Relationships>' % RNS),
+        ("word/document.xml", _xml_bytes(ET, root, {"w": WNS[1:-1]}))])
+    return _tables_of(next(m.read_docx(pkg, "x.docx")))
+
+
+# ---- pptx -------------------------------------------------------------------------------
+
+def _pptx_frame(ET, t, x, y, concrete):
+    fr = ET.Element(PNS + "graphicFrame")
+    nv = ET.SubElement(fr, PNS + "nvGraphicFramePr")
+    ET.SubElement(nv, PNS + "cNvPr", {"id": "9", "name": t.name})
+    ET.SubElement(nv, PNS + "cNvGraphicFramePr")
+    ET.SubElement(nv, PNS + "nvPr")
+    xfrm = ET.SubElement(fr, PNS + "xfrm")
+    off = ET.SubElement(xfrm, ANS + "off")
+    off.set("x", str(x) if concrete else x)
+    off.set("y", str(y) if concrete else y)
+    ET.SubElement(xfrm, ANS + "ext", {"cx": "100", "cy": "100"})
+    gd = ET.SubElement(ET.SubElement(fr, ANS + "graphic"), ANS + "graphicData", {"uri": DML_TABLE})
+    tbl = ET.SubElement(gd, ANS + "tbl")
+    ET.SubElement(tbl, ANS + "tblPr")
+    ET.SubElement(tbl, ANS + "tblGrid")
+    for row in t.rows:
+        tr = ET.SubElement(tbl, ANS + "tr", {"h": "1"})
+        for cell in row:
+            tc = ET.SubElement(tr, ANS + "tc")
+            if cell.feature == "merged":
+                tc.set("hMerge", "1")
+            tx = ET.SubElement(tc, ANS + "txBody")
+            ET.SubElement(tx, ANS + "bodyPr")
+            for p in (cell.paras or [""]):
+                ap = ET.SubElement(tx, ANS + "p")
+                for piece in ((p,) if isinstance(p, str) else p):
+                    if piece == "BR":
+                        ET.SubElement(ap, ANS + "br")
+                    elif piece != "":
+                        ET.SubElement(ET.SubElement(ap, ANS + "r"), ANS + "t").text = piece
+            ET.SubElement(tc, ANS + "tcPr")
+    return fr
+
+
+def _run_pptx(ctx, doc):
+    import sharepoint2text.parsing.extractors.ms_modern.pptx_extractor as m
+    ET = _ET()
+    root = ET.Element(PNS + "sld")
+    tree = ET.SubElement(ET.SubElement(root, PNS + "cSld"), PNS + "spTree")
+    ET.SubElement(tree, PNS + "nvGrpSpPr")
+    ET.SubElement(tree, PNS + "grpSpPr")
+    # vertical offsets of the frames are symbolic: the walker sorts shapes by position
+    ys = []
+    for k, t in enumerate(doc["top"]):
+        y = ctx.fresh_int(f"frame{k}_y", 0, 2)
+        ys.append(y)
+        tree.append(_pptx_frame(ET, t, 0, y, ctx.concrete))
+    if not ctx.concrete:
+        fake = type("Ctx", (), {"get_slide_relationships": lambda s, p: {}, "get_slide_root": lambda s, p: root,
+                                "get_comment_root": lambda s, n: None})()
+        with ctx.shadow(m, int=S.IntShadow):
+            slide = m._process_slide_from_context(fake, "ppt/slides/slide1.xml", 1)
+        got = slide.tables
+    else:
+        pkg = _zip_members([
+            ("[Content_Types].xml", '<?xml version="1.0"?><Types xmlns="http://schemas.openxmlformats.org/package/2006/'
+             'content-types"><Default Extension="rels" ContentType="application/vnd.openxmlformats-package.relationships+xml"/>'
+             '<Default Extension="xml" ContentType="application/xml"/></Types>'),
+            ("_rels/.rels", '<?xml version="1.0"?><Relationships xmlns="http://schemas.openxmlformats.org/package/2006/'
+             'relationships"><Relationship Id="rId1" Type="%s/officeDocument" Target="ppt/presentation.xml"/></Relationships>' % RNS),
+            ("ppt/_rels/presentation.xml.rels", '<?xml version="1.0"?><Relationships xmlns="http://schemas.openxmlformats.org/'
+             'package/2006/relationships"><Relationship Id="rId1" Type="%s/slide" Target="slides/slide1.xml"/></Relationships>' % RNS),
+            ("ppt/presentation.xml", '<?xml version="1.0"?><p:presentation xmlns:p="%s" xmlns:r="%s"><p:sldIdLst>'
+             '<p:sldId id="256" r:id="rId1"/></p:sldIdLst></p:presentation>' % (PNS[1:-1], RNS)),
+            ("ppt/slides/slide1.xml", _xml_bytes(ET, root, {"p": PNS[1:-1], "a": ANS[1:-1]})),
+            ("ppt/slides/_rels/slide1.xml.rels", '<?xml version="1.0"?><Relationships xmlns="http://schemas.openxmlformats.org/'
+             'package/2006/relationships"/>')])
+        got = _tables_of(next(m.read_pptx(pkg, "x.pptx")))
+    # source order: the order of the frames in the slide part, or the reading order of the slide
+    # (top to bottom; frames at the same height keep their order)
+    alts = []
+    if len(ys) == 2 and ctx.perturb != "xml_order_only":
+        y0, y1 = ctx.conc(ys[0], 0, 2), ctx.conc(ys[1], 0, 2)
+        if y1 < y0:
+            alts.append([1, 0])
+    return got, alts
+
+
+# ---- odt / odp --------------------------------------------------------------------------
+
+def _odf_p(ET, text):
+    p = ET.Element(_q("text", "p"))
+    p.text = text
+    return p
+
+
+def _odf_tbl(ET, t, doc):
+    tbl = ET.Element(_q("table", "table"), {_q("table", "name"): t.name})
+    ET.SubElement(tbl, _q("table", "table-column"))
+    parent = tbl
+    for i, row in enumerate(t.rows):
+        if doc["feature"] == "header-rows" and t.name == "T0" and i == 0:
+            parent = ET.SubElement(tbl, _q("table", "table-header-rows"))
+        else:
+            parent = tbl
+        tr = ET.SubElement(parent, _q("table", "table-row"))
+        for cell in row:
+            tc = ET.SubElement(tr, _q("table", "table-cell"), {_q("office", "value-type"): "string"})
+            for p in cell.paras:
+                tc.append(_odf_p(ET, p))
+            if cell.nested is not None:
+                tc.append(_odf_tbl(ET, cell.nested, doc))
+    return tbl
+
+
+def _odf_package(ET, root, mime):
+    return _zip_members([
+        ("mimetype", mime),
+        ("content.xml", _xml_bytes(ET, root, ODF)),
+        ("META-INF/manifest.xml", '<?xml version="1.0"?><manifest:manifest xmlns:manifest="urn:oasis:names:tc:'
+         'opendocument:xmlns:manifest:1.0"><manifest:file-entry manifest:full-path="/" manifest:media-type="%s"/>'
+         '<manifest:file-entry manifest:full-path="content.xml" manifest:media-type="text/xml"/></manifest:manifest>' % mime)])
+
+
+def _run_odt(ctx, doc):
+    import sharepoint2text.parsing.extractors.open_office.odt_extractor as m
+    ET = _ET()
+    root = ET.Element(_q("office", "document-content"))
+    text = ET.SubElement(ET.SubElement(root, _q("office", "body")), _q("office", "text"))
+    for kind, v in doc["body"]:
+        if kind == "p":
+            text.append(_odf_p(ET, v))
+        else:
+            el = _odf_tbl(ET, v, doc)
+            if doc["feature"] == "section" and v.name == "T0":
+                sec = ET.SubElement(text, _q("text", "section"), {_q("text", "name"): "S"})
+                sec.append(el)
+            else:
+                text.append(el)
+    if not ctx.concrete:
+        return [t.get_table() for t in m._extract_tables(text)]
+    return _tables_of(next(m.read_odt(_odf_package(ET, root, "application/vnd.oasis.opendocument.text"), "x.odt")))
+
+
+def _run_odp(ctx, doc):
+    import sharepoint2text.parsing.extractors.open_office.odp_extractor as m
+    ET = _ET()
+    root = ET.Element(_q("office", "document-content"))
+    pres = ET.SubElement(ET.SubElement(root, _q("office", "body")), _q("office", "presentation"))
+    page = ET.SubElement(pres, _q("draw", "page"), {_q("draw", "name"): "page1"})
+    fr = ET.SubElement(page, _q("draw", "frame"), {_q("svg", "x"): "1cm", _q("svg", "y"): "1cm"})
+    ET.SubElement(fr, _q("draw", "text-box")).append(_odf_p(ET, "Intro"))
+    lower_first = len(doc["top"]) == 2 and ctx.flag("first_frame_is_lower")
+    for k, t in enumerate(doc["top"]):
+        y = (9 - 4 * k) if lower_first else (3 + 4 * k)
+        fr = ET.SubElement(page, _q("draw", "frame"), {_q("svg", "x"): "1cm", _q("svg", "y"): "%dcm" % y})
+        fr.append(_odf_tbl(ET, t, doc))
+    if not ctx.concrete:
+        slide, _ = m._extract_slide(None, page, 1, 0)
+        got = slide.tables
+    else:
+        got = _tables_of(next(m.read_odp(_odf_package(ET, root, "application/vnd.oasis.opendocument.presentation"), "x.odp")))
+    return got, ([[1, 0]] if lower_first else [])
+
+
+# ---- html / epub ------------------------------------------------------------------------
+
+def _html_tokens(doc, xhtml):
+    """the document as a token list: ("start", tag) ("end", tag) ("text", s)"""
+    feature = doc["feature"]
+    omit = feature == "omit-end-tags"
+    toks = []
+
+    def para(p):
+        if isinstance(p, str):
+            toks.append(("text", p))
+            return
+        it = iter(p)
+        for piece in it:
+            if piece == "BR":
+                toks.append(("startend" if xhtml else "start", "br"))
+            elif piece == "WRAP":
+                w = doc["probe"].wrap
+                toks.extend([("start", w), ("text", next(it)), ("end", w)])
+            else:
+                toks.append(("text", piece))
+
+    def table(t):
+        toks.append(("start", "table"))
+        for i, row in enumerate(t.rows):
+            sect = None
+            if feature == "sections" and t.name == "T0":
+                sect = "thead" if i == 0 else ("tbody" if i == 1 else None)
+                if i == 1:
+                    toks.append(("end", "thead"))
+                if sect:
+                    toks.append(("start", sect))
+            toks.append(("start", "tr"))
+            for cell in row:
+                tag = "th" if (feature == "th" and t.name == "T0" and i == 0) else "td"
+                toks.append(("start", tag))
+                if len(cell.paras) == 1 and cell.nested is None:
+                    para(cell.paras[0])
+                else:
+                    for p in cell.paras:
+                        toks.append(("start", "p"))
+                        para(p)
+                        toks.append(("end", "p"))
+                if cell.nested is not None:
+                    table(cell.nested)
+                if not (omit and t.name == "T0"):
+                    toks.append(("end", tag))
+            if not (omit and t.name == "T0"):
+                toks.append(("end", "tr"))
+        if feature == "sections" and t.name == "T0":
+            toks.append(("end", "thead" if len(t.rows) == 1 else "tbody"))
+        toks.append(("end", "table"))
+
+    for kind, v in doc["body"]:
+        if kind == "p":
+            toks.extend([("start", "p"), ("text", v), ("end", "p")])
+        else:
+            table(v)
+    return toks
+
+
+def _html_render(toks):
+    out = []
+    for kind, v in toks:
+        v = str(v)
+        out.append({"text": v, "start": f"<{v}>", "end": f"</{v}>", "startend": f"<{v}/>"}[kind])
+    return "".join(out)
+
+
+def _html_feed(toks, p):
+    """the callbacks html.parser makes for the token list (no script/style inside: the wrapper
+    name excludes them)"""
+    for kind, v in toks:
+        if kind == "text":
+            p.handle_data(v)
+        elif kind == "start":
+            p.handle_starttag(v, [])
+        elif kind == "end":
+            p.handle_endtag(v)
+        else:
+            p.handle_starttag(v, [])
+            p.handle_endtag(v)
+
+
+def _html_shadows(mod):
+    sh = {"REMOVE_TAGS": S.SymSet(sorted(mod.REMOVE_TAGS)), "BLOCK_TAGS": S.SymSet(sorted(mod.BLOCK_TAGS)),
+          "int": S.IntShadow}
+    for name in ("_VOID_TAGS", "_VOID_REMOVE_TAGS"):
+        if hasattr(mod, name):
+            sh[name] = S.SymSet(sorted(getattr(mod, name)))
+    return sh
+
+
+def _run_html(ctx, doc):
+    import sharepoint2text.parsing.extractors.html_extractor as m
+    toks = _html_tokens(doc, xhtml=False)
+    if not ctx.concrete:
+        ctx.hash_universe = S.str_constants(m)
+        with ctx.shadow(m, **_html_shadows(m)):
+            b = m._HtmlTreeBuilder()
+            for kind, v in [("start", "html"), ("start", "body")]:
+                b.handle_starttag(v, [])
+            _html_feed(toks, b)
+            x = m._HtmlTextExtractor(b.get_tree())
+            x.extract()
+        return x.tables
+    html = "<!DOCTYPE html><html><head><title>t</title></head><body>" + _html_render(toks) + "</body></html>"
+    return _tables_of(next(m.read_html(io.BytesIO(html.encode("utf-8")), "x.html")))
+
+
+def _run_epub(ctx, doc):
+    import sharepoint2text.parsing.extractors.epub_extractor as m
+    toks = _html_tokens(doc, xhtml=True)
+    if not ctx.concrete:
+        ctx.hash_universe = S.str_constants(m)
+        with ctx.shadow(m, **_html_shadows(m)):
+            x = m._XhtmlTextExtractor()
+            for v in ("html", "body"):
+                x.handle_starttag(v, [])
+            _html_feed(toks, x)
+        return x.tables
+    chapter = ('<?xml version="1.0" encoding="UTF-8"?><html xmlns="http://www.w3.org/1999/xhtml"><head><title>c1</title>'
+               '</head><body>%s</body></html>' % _html_render(toks))
+    pkg = _zip_members([
+        ("mimetype", "application/epub+zip"),
+        ("META-INF/container.xml", '<?xml version="1.0"?><container version="1.0" xmlns="urn:oasis:names:tc:opendocument:'
+         'xmlns:container"><rootfiles><rootfile full-path="OEBPS/content.opf" media-type="application/oebps-package+xml"/>'
+         '</rootfiles></container>'),
+        ("OEBPS/ch1.xhtml", chapter),
+        ("OEBPS/content.opf", '<?xml version="1.0" encoding="UTF-8"?><package xmlns="http://www.idpf.org/2007/opf" '
+         'version="3.0" unique-identifier="id"><metadata xmlns:dc="http://purl.org/dc/elements/1.1/"><dc:title>t</dc:title>'
+         '<dc:identifier id="id">x</dc:identifier><dc:language>en</dc:language></metadata><manifest><item id="ch1" '
+         'href="ch1.xhtml" media-type="application/xhtml+xml"/></manifest><spine><itemref idref="ch1"/></spine></package>')])
+    return _tables_of(next(m.read_epub(pkg, "x.epub")))
+
+
+# ---- rtf --------------------------------------------------------------------------------
+
+def _rtf_table(t, doc, level=1):
+    out = []
+    for row in t.rows:
+        cellx = "".join("\\cellx%d" % (1500 * (k + 1)) for k in range(len(row)))
+        if level == 1:
+            out.append("\\trowd\\trgaph108" + cellx + "\n")
+            for cell in row:
+                out.append("\\pard\\intbl " + "\\par ".join(_para_text(p) for p in cell.paras))
+                if cell.nested is not None:
+                    out.append("\n" + _rtf_table(cell.nested, doc, 2) + "\\pard\\intbl ")
+                out.append("\\cell\n")
+            if doc["feature"] == "double-trowd":
+                out.append("\\trowd\\trgaph108" + cellx)
+            out.append("\\row\n")
+        else:
+            # RTF 1.9.1 "Nested tables": cells end with \nestcell, the row definition follows in
+            # {\*\nesttableprops ... \nestrow}
+            for cell in row:
+                out.append("\\pard\\intbl\\itap2 " + " ".join(_para_text(p) for p in cell.paras) + "\\nestcell\n")
+            out.append("{\\*\\nesttableprops\\trowd\\trgaph108" + cellx + "\\nestrow}{\\nonesttables\\par}\n")
+    return "".join(out)
+
+
+def _rtf_render(doc):
+    out = ["{\\rtf1\\ansi\\deff0{\\fonttbl{\\f0 Arial;}}\n"]
+    for kind, v in doc["body"]:
+        if kind == "p":
+            out.append("\\pard " + v + "\\par\n")
+        else:
+            out.append(_rtf_table(v, doc))
+    out.append("}")
+    return "".join(out)
+
+
+def _run_rtf(ctx, doc):
+    import sharepoint2text.parsing.extractors.ms_legacy.rtf_extractor as m
+    text = _rtf_render(doc)
+    if not ctx.concrete:
+        p = m._RtfParser(b"")
+        p._extract_tables(text)
+        return [t.get_table() for t in p.tables]
+    return _tables_of(next(m.read_rtf(io.BytesIO(text.encode("ascii")), "x.rtf")))
+
+
+K5_RUNNERS = {"docx": _run_docx, "pptx": _run_pptx, "odt": _run_odt, "odp": _run_odp, "html": _run_html,
+              "epub": _run_epub, "rtf": _run_rtf}
+
+
+def k5_walkers(ctx):
+    fmt = ctx.params["fmt"]
+    doc = _gen_doc(ctx, fmt)
+    try:
+        res = K5_RUNNERS[fmt](ctx, doc)
+    except AssertionError as e:
+        ctx.fail("get_dim-differs", fmt=fmt, msg=str(e))
+    except Exception as e:
+        ctx.fail("read-raised", fmt=fmt, exc=type(e).__name__, msg=str(e)[:120], feature=doc["feature"])
+    got, alts = res if isinstance(res, tuple) else (res, None)
+    if ctx.perturb == "expect_second_table_first" and doc["second"]:
+        doc["tables"] = doc["tables"][::-1]
+    _judge_tables(ctx, doc, got, alts)
+
+
+def _k5_parts(tier):
+    R, C = (2, 2) if tier == "quick" else (3, 3)
+    parts = []
+    for f, F in K5_FORMATS.items():
+        plain = [x for x in F["cell"] + F["table"] if x != "wrapper"]
+        parts.append({"fmt": f, "R": R, "C": C, "features": plain})
+        if "wrapper" in F["cell"]:
+            parts.append({"fmt": f, "R": 2, "C": 2, "features": ["wrapper"],
+                          "wrapper_lengths": [1, 2, 5] if tier == "quick" else [1, 2, 3, 5, 6]})
+    return parts
+
+
+def _k5_targets():
+    import sharepoint2text.parsing.extractors.ms_modern.docx_extractor as d
+    import sharepoint2text.parsing.extractors.ms_modern.pptx_extractor as p
+    import sharepoint2text.parsing.extractors.open_office.odt_extractor as ot
+    import sharepoint2text.parsing.extractors.open_office.odp_extractor as op
+    import sharepoint2text.parsing.extractors.html_extractor as h
+    import sharepoint2text.parsing.extractors.epub_extractor as e
+    import sharepoint2text.parsing.extractors.ms_legacy.rtf_extractor as r
+    return [d._extract_tables_from_context, p._extract_table_from_graphic_frame, p._process_slide_from_context,
+            p._get_shape_position, ot._extract_tables, op._extract_table, op._extract_slide,
+            h._HtmlTreeBuilder.handle_starttag, h._HtmlTreeBuilder.handle_endtag, h._HtmlTreeBuilder.handle_data,
+            h._HtmlTextExtractor._extract_table, h._HtmlTextExtractor._process_node, h._HtmlTextExtractor._find_nodes,
+            e._XhtmlTextExtractor.handle_starttag, e._XhtmlTextExtractor.handle_endtag,
+            e._XhtmlTextExtractor.handle_data, r._RtfParser._extract_tables, r._RtfParser._extract_table_cells,
+            r._RtfParser._save_table]
 
 KERNELS = [
     Kernel("K1", "get_dim == (rows, widest row) and get_table keeps every row in place: list-backed classes",
@@ -895,10 +1634,46 @@ KERNELS = [
            assumptions=["replay runs the same table through the public read_ods on a generated .ods package"],
            outside=["repeat counts other than 1,2,3,101; spans (number-columns-spanned) beyond their covered cells; "
                     "office:string-value; NaN/inf values"]),
+    Kernel("K5", "table walkers: docx / pptx / odt / odp / html / epub / rtf on a generated document model",
+           k5_walkers, targets=lambda: _k5_targets(), parts=_k5_parts, strength="structure",
+           perturb=[("expect_second_table_first", {"fmt": "docx", "features": ["plain"]}),
+                    ("xml_order_only", {"fmt": "pptx", "features": ["plain"]})],
+           symbolic=["html/epub: name of an element wrapped around part of a cell's text (lengths 1,2,5)",
+                     "pptx: vertical offset of every table frame (the walker sorts shapes by position)"],
+           choices=["rows, columns, last row one cell short", "cell feature: empty / two paragraphs / padded text / "
+                    "line break / table inside the cell / merged placeholder", "table feature: content controls (docx), "
+                    "header rows, sections, th, omitted optional end tags (html), row definition repeated (rtf)",
+                    "second table and what separates it from the first"],
+           assumptions=["cell texts are compared modulo white space; a cell that contains a table may or may not "
+                        "include the inner table's text", "pptx/odp: frames may arrive in part order or in reading order",
+                        "the wrapper element is not a table-structure, removed, void or document-structure element",
+                        "replay runs the same document through the public read_* entry point on a generated file"],
+           outside=["spans (gridSpan / covered cells) in word-processing tables", "PDF table heuristics",
+                    "documents with more than two top-level tables or deeper nesting than one level"],
+           timeout={"quick": 200, "thorough": 1500}),
 ]
 
 META = {
-    "level_text": "",
-    "level_note": "",
-    "technique": "",
+    "level_text": "The real get_dim/get_table of every TableInterface class run on grids whose row lengths are symbolic; "
+                  "XlsSheet and the real xls._read_content run on header cells whose characters and cell types are "
+                  "symbolic, so the solver decides inside dict insertion which headers coincide; the real xlsx sheet "
+                  "reader runs on symbolic cell texts (white space decides the used range); the real ods sheet reader "
+                  "runs on ET rows/cells whose repeat counts are symbolic; the table walkers of docx/pptx/odt/odp/html/"
+                  "epub/rtf run on every document of a generated model (rows x columns, ragged row, empty / multi-"
+                  "paragraph / padded cell, table inside a cell, header rows, content controls, second table and its "
+                  "separator; html/epub with a symbolic element name inside a cell, pptx with symbolic frame offsets). "
+                  "On every feasible path the returned tables are compared with the source model: r x c, cell (i,j) in "
+                  "place, order, nothing lost / merged / invented, get_dim. Counterexamples and sampled passing paths "
+                  "are replayed through the public read_xlsx / read_ods / read_docx / read_pptx / read_odt / read_odp / "
+                  "read_html / read_epub / read_rtf on generated files.",
+    "level_note": "Bounds: grids up to 3x3 (quick) / 4x5 (thorough); walkers up to 2x2 (3x3) cells per table, two "
+                  "top-level tables, one nesting level, one non-plain feature per document. Trusted: openpyxl / xlrd "
+                  "cell typing (replaced by fake worksheet / book objects), ET parsing, html.parser's callback sequence "
+                  "(checked by replay through feed()). Cell texts of the walkers are compared modulo white space. "
+                  "17 defect classes are recorded in known_findings.json; paths inside a recorded class are not judged "
+                  "beyond it. xls has no writer in this environment: its replay is unit-level.",
+    "technique": "symbolic execution of the real functions on z3 Int / bounded-string proxies (symrun): symbolic row "
+                 "lengths, header characters, cell types, repeat counts, element names and frame offsets reach the "
+                 "repository's own comparisons; structure enumeration by solver-free choices; reference models written "
+                 "from the property text and the ODF / OOXML / HTML / RTF specifications; replay through the public API",
 }
